@@ -1090,6 +1090,14 @@ pub fn emit_like<A: Encode, B: Reg + Decode>(ctx: &mut Ctx, family: &str, a: &A,
 	m.insert("dres".into(), json!(res));
 	m.insert("dv".into(), v);
 	m.insert("dn".into(), json!(out.len() - s.len()));
+	#[cfg(feature = "bytes")]
+	{
+		let bb = bytes::Bytes::copy_from_slice(&out);
+		let rb = guarded(|| parity_scale_codec::decode_from_bytes::<B>(bb));
+		let (res, v) = res_json(&rb);
+		m.insert("bres".into(), json!(res));
+		m.insert("bdv".into(), v);
+	}
 	m.insert("alts".into(), Value::Array(entry_points(a)));
 	ctx.emit(family, Value::Object(m));
 }
